@@ -7,6 +7,7 @@ import (
 	"go/token"
 	"go/types"
 	"golang.org/x/tools/go/types/typeutil"
+	"os"
 	"sort"
 	"strings"
 
@@ -369,16 +370,29 @@ func (f *Frame) callByContract(st *State, fi *FuncInfo, args []Term, tsub map[*t
 	}
 	vc.usedContracts[fi.Key] = true
 	site := fmt.Sprintf("call.%s#%d", fi.Key, vc.callN[fi.Key])
+	if !f.spec && f.guard.S != "" && f.guard.S != "true" && os.Getenv("KVC_GUARDLOG") != "" {
+		fmt.Fprintf(os.Stderr, "GUARDED-CONTRACT-CALL %s in %s at %s\n", fi.Key, vc.fi.Key, vc.posStr(pos))
+	}
 	pre := st.clone()
 	env := bindSpec(sp, args, nil)
 	sf := f.specFrame(sp, env, pre, tsub)
 	for _, c := range sp.Requires {
 		cond := sf.expr(st, c.Expr)
 		if !f.spec {
+			if f.guard.S != "" && f.guard.S != "true" {
+				// the call sits in the right operand of && / ||: it is only made (and its precondition only
+				// owed) when the left operand lets evaluation continue
+				cond = Imp(f.guard, cond)
+			}
 			vc.oblige(st, site+"."+c.Label, "pre", cond, pos, vc.srcText(sp.Pkg, c.Expr))
 		}
 	}
 	// havoc what the callee may modify
+	if !f.spec && f.guard.S != "" && f.guard.S != "true" && (sp.ModAll || len(sp.Modifies) > 0 || sp.Allocs || sp.Effect) {
+		// its effects and postconditions would have to be conditional on the guard; only effect-free callees
+		// (whose postconditions relate the result to the unchanged state) are accepted in this position
+		vc.fail(pos, "call of %s (a contract with effects) inside a short-circuit operand is outside the subset", fi.Key)
+	}
 	if sp.ModAll {
 		vc.havocAll(st)
 		defer f.assumeTypeInvs(st, pos) // after the postconditions: encapsulated invariants survive arbitrary callees
